@@ -35,6 +35,18 @@ fn loc(tcx: TyCtxt<'_>, span: rustc_span::Span) -> String {
     format!("{}:{}:{}", file, lo.line, lo.col.0 + 1)
 }
 
+/// names of the macros whose expansion produced `span`, outermost last (e.g. "panic>assert>debug_assert")
+fn macro_chain(span: rustc_span::Span) -> String {
+    let names: Vec<String> = span
+        .macro_backtrace()
+        .filter_map(|d| match d.kind {
+            rustc_span::ExpnKind::Macro(_, name) => Some(name.to_string()),
+            _ => None,
+        })
+        .collect();
+    names.join(">")
+}
+
 fn analyse(tcx: TyCtxt<'_>) {
     let krate = tcx.crate_name(rustc_hir::def_id::LOCAL_CRATE).to_string();
     let Ok(out_dir) = std::env::var("MIRFACTS_OUT") else { return };
@@ -97,7 +109,7 @@ fn analyse(tcx: TyCtxt<'_>) {
                         };
                         let callee_name = tcx.def_path_str(rid);
                         let subs = format!("{:?}", rsub).replace('\t', " ").replace('\n', " ");
-                        let _ = writeln!(out, "CALL\t{}\t{}\t{}\t{}\t{}\t{}", name, callee_name, subs, loc(tcx, *fn_span), fn_span.from_expansion(), resolved);
+                        let _ = writeln!(out, "CALL\t{}\t{}\t{}\t{}\t{}\t{}\t{}", name, callee_name, subs, loc(tcx, *fn_span), fn_span.from_expansion(), resolved, macro_chain(*fn_span));
                     } else if let Operand::Copy(_) | Operand::Move(_) = func {
                         let _ = writeln!(out, "CALLIND\t{}\t{}\t{}", name, fty, loc(tcx, *fn_span));
                     }
@@ -106,7 +118,7 @@ fn analyse(tcx: TyCtxt<'_>) {
                     let k = format!("{:?}", msg);
                     let kind: String = k.chars().take_while(|c| c.is_alphanumeric()).collect();
                     let detail: String = k.chars().take(60).collect::<String>().replace('\t', " ").replace('\n', " ");
-                    let _ = writeln!(out, "ASSERT\t{}\t{}\t{}\t{}\t{}", name, kind, detail, loc(tcx, term.source_info.span), term.source_info.span.from_expansion());
+                    let _ = writeln!(out, "ASSERT\t{}\t{}\t{}\t{}\t{}\t{}", name, kind, detail, loc(tcx, term.source_info.span), term.source_info.span.from_expansion(), macro_chain(term.source_info.span));
                 }
                 _ => {}
             }
